@@ -596,6 +596,7 @@ type Options struct {
 	PrintSep          string
 	Sync              bool
 	History           *History
+	HistoryMax        int
 	Header            []string
 	HeaderLines       int
 	HeaderFirst       bool
@@ -712,6 +713,7 @@ func defaultOptions() *Options {
 		PrintSep:     "\n",
 		Sync:         false,
 		History:      nil,
+		HistoryMax:   defaultHistoryMax,
 		Header:       make([]string, 0),
 		HeaderLines:  0,
 		HeaderFirst:  false,
@@ -2175,10 +2177,13 @@ func optString(arg string, prefix string) (bool, string) {
 
 func parseOptions(index *int, opts *Options, allArgs []string) error {
 	var err error
-	var historyMax int
-	if opts.History == nil {
+	// --history-size may have been given by an earlier set of options
+	// ($FZF_DEFAULT_OPTS) without --history
+	historyMax := opts.HistoryMax
+	if historyMax < 1 {
 		historyMax = defaultHistoryMax
-	} else {
+	}
+	if opts.History != nil {
 		historyMax = opts.History.maxSize
 	}
 	setHistory := func(path string) error {
@@ -2194,6 +2199,7 @@ func parseOptions(index *int, opts *Options, allArgs []string) error {
 		if historyMax < 1 {
 			return errors.New("history max must be a positive integer")
 		}
+		opts.HistoryMax = historyMax
 		if opts.History != nil {
 			opts.History.maxSize = historyMax
 		}
